@@ -11,3 +11,4 @@ for c in $CHECKS; do
   echo "$c rc=$rc $(echo "$out" | tail -1)"
   [ $rc -ne 0 ] && echo "$out" | grep -A3 "^VIOLATION\|HARNESS" | head -20
 done
+exit 0
